@@ -108,7 +108,13 @@ def schema_classes():
         ("permissive/stale-mn-vr", perm, lambda i, n: {"name": f"r{i}", "mn": -1.0 - i, "vr": -2.0, "z": [1, {"a": i}]}),
         ("permissive/some-rows-empty", perm, lambda i, n: ({"name": f"r{i}"} if i % 2 == 0 else None)),
         ("permissive/empty-objects", perm, lambda i, n: b"{}"),
+        # tsdate's own default node/mutation schema, exactly as a first dating installs it (permissive: other keys allowed)
         ("default-schema/dated-before", "default", lambda i, n: {"mn": -1.0 - i, "vr": -3.0}),
+        ("default-schema/mn-vr-and-other-keys", "default",
+         lambda i, n: {"mn": -1.0 - i, "vr": -3.0, "name": f"r{i}", "tags": ["a", i], "rsid": f"rs{100 + i}"}),
+        ("default-schema/other-keys-only", "default", lambda i, n: {"name": f"r{i}", "rsid": f"rs{i}"}),
+        ("default-schema/other-keys-some-rows", "default", lambda i, n: ({"mn": -1.0, "vr": -3.0, "name": f"r{i}"} if i % 2 else None)),
+        ("default-schema/empty", "default", empty),
         ("required-name/content", req, lambda i, n: {"name": f"r{i}"}),
         ("required-name/empty", req, empty),
         ("required-name/last-row-lacks-it", req, lambda i, n: _json({"name": "a"} if i < n - 1 else {"x": 1})),
